@@ -151,6 +151,9 @@ func LenientEnvelopes(run *ev.Run) {
 		{"finder", `{"elements":[{"a":"x","b":"y"},{"a":"x2","b":"y2"}],` + paging + `}`, 0, "x,y;x2,y2;", ""},
 		{"finder", `{"elements":[{"a":"x"},{"zz":1,"b":"y2"}],` + paging + `}`, 2, "x,;,y2;", ""},
 		{"get_all", `{` + paging + `,"elements":[{"a":"x","b":"y"},{"b":"y2"}]}`, 1, "x,y;,y2;", ""},
+		{"action", `{"value":{"a":"x","b":"y"}}`, 0, "x,y;", ""},
+		{"action", `{"value":{"a":"x"}}`, 1, "x,;", ""},
+		{"action", `{"zz":[1,{"q":2}],"value":{"zz":1,"b":"y"}}`, 1, ",y;", ""},
 		{"batch_get", `{"results":{"k1":{"a":"x","b":"y"},"k2":{"a":"x2","b":"y2"}},"statuses":{},"errors":{}}`, 0, "x,y;x2,y2;", ""},
 		{"batch_get", `{"results":{"k1":{"a":"x"},"k2":{"a":"x2","b":"y2"}},"statuses":{},"errors":{}}`, 1, "x,;x2,y2;", ""},
 		{"batch_get", `{"errors":{},"statuses":{},"results":{"k2":{"b":"y2"},"k1":{"a":"x","b":"y"}}}`, 1, "x,y;,y2;", ""},
@@ -183,6 +186,16 @@ func LenientEnvelopes(run *ev.Run) {
 				err = e
 				if res != nil {
 					got, elements = true, showPairs(res.Elements)
+				}
+			case "action":
+				res, e := restli.DoActionRequestWithResults[*pair](cl, context.Background(), rp, restli.QueryParamsString("action=act"), &pair{A: "p", B: "q"},
+					func(r restlicodec.Reader) (*pair, error) {
+						p := new(pair)
+						return p, p.UnmarshalRestLi(r)
+					})
+				err = e
+				if res != nil {
+					got, elements = true, showPairs([]*pair{res})
 				}
 			case "batch_get":
 				res, e := restli.BatchGet[string, *pair](cl, context.Background(), rp, []string{"k1", "k2"}, nil)
